@@ -3,7 +3,8 @@
    Model/Components.v, for all states and arguments. *)
 From Coq Require Import List Arith Bool Lia.
 Import ListNotations.
-From ZI Require Import Model.Ro Model.Adapter Model.Components Proofs.Components Gen.ComponentsKernel.
+From ZI Require Import Model.Ro Model.Adapter Model.Lookup Model.RegSys Model.Components Model.ComponentsSys
+  Proofs.Components Gen.ComponentsKernel.
 
 (* ------------------------------------------------------------------ _UnhashableComponentCounter *)
 Lemma g_counter_init_eq l : g_counter_init l = l.
@@ -164,13 +165,13 @@ Section Utilities.
   Hypothesis gn_none : forall c, gn c = 0.
 
   (* the part of the generated registerUtility after the argument preamble, for a resolved name *)
-  Lemma g_reg_body st c p nm i (fo : option (nat * value)) :
+  Lemma g_reg_body st c p nm i (fo : option (nat * value)) (ev : bool) :
     (let reg := aget pn_eqb (c_ureg st) (p, nm) in
      match reg with
      | None =>
          let '(u_, r_, c_) := g_ur_registerUtility W hashable (c_utils st) (c_ureg st) (c_cache st) p nm c i (option_map fst fo) in
          let st0 := with_cache (with_ureg (with_utils st u_) r_) c_ in
-         (st0, RNone, [] ++ [Registered (RU p nm c i (option_map fst fo))])
+         if ev then (st0, RNone, [] ++ [Registered (RU p nm c i (option_map fst fo))]) else (st0, RNone, [])
      | Some reg5 =>
          if v_eq (fst (fst reg5)) c && Nat.eqb (snd (fst reg5)) i then (st, RNone, [])
          else
@@ -179,9 +180,10 @@ Section Utilities.
            else
              let '(u_, r_, c_) := g_ur_registerUtility W hashable (c_utils st1_) (c_ureg st1_) (c_cache st1_) p nm c i (option_map fst fo) in
              let st0 := with_cache (with_ureg (with_utils st1_ u_) r_) c_ in
-             (st0, RNone, ([] ++ evs1_) ++ [Registered (RU p nm c i (option_map fst fo))])
+             if ev then (st0, RNone, ([] ++ evs1_) ++ [Registered (RU p nm c i (option_map fst fo))])
+             else (st0, RNone, [] ++ evs1_)
      end)
-    = registerUtility W hashable st c p nm i (option_map fst fo).
+    = registerUtility W hashable st c p nm i (option_map fst fo) ev.
   Proof.
     unfold registerUtility. cbv zeta.
     destruct (aget pn_eqb (c_ureg st) (p, nm)) as [[[oc oi] of]|].
@@ -190,26 +192,26 @@ Section Utilities.
       destruct (unregisterUtility_ret st (Some oc) p nm) as [[b Hb]|Hb];
         destruct (unregisterUtility W hashable st (Some oc) p nm) as [[st1 r1] ev1]; cbn [ret_of fst snd] in Hb; subst r1;
         cbn [is_exc app]; [|reflexivity].
-      rewrite g_ur_registerUtility_eq. reflexivity.
-    - rewrite g_ur_registerUtility_eq. reflexivity.
+      rewrite g_ur_registerUtility_eq. destruct ev; cbn [announce app]; [reflexivity | now rewrite app_nil_r].
+    - rewrite g_ur_registerUtility_eq. destruct ev; reflexivity.
   Qed.
 
-  Theorem g_registerUtility_eq st c p n i :
-    g_registerUtility W hashable gup gn st (Some c) (Some p) n i true None
-    = registerUtility W hashable st c p n i None.
+  Theorem g_registerUtility_eq st c p n i ev :
+    g_registerUtility W hashable gup gn st (Some c) (Some p) n i ev None
+    = registerUtility W hashable st c p n i None ev.
   Proof.
     unfold g_registerUtility. cbv beta iota zeta. destruct (Nat.eqb n 0) eqn:E.
-    - apply Nat.eqb_eq in E. subst n. rewrite gn_none. exact (g_reg_body st c p 0 i None).
-    - exact (g_reg_body st c p n i None).
+    - apply Nat.eqb_eq in E. subst n. rewrite gn_none. exact (g_reg_body st c p 0 i None ev).
+    - exact (g_reg_body st c p n i None ev).
   Qed.
 
-  Theorem g_registerUtility_factory_eq st f c p n i :
-    g_registerUtility W hashable gup gn st None (Some p) n i true (Some (f, c))
-    = registerUtility W hashable st c p n i (Some f).
+  Theorem g_registerUtility_factory_eq st f c p n i ev :
+    g_registerUtility W hashable gup gn st None (Some p) n i ev (Some (f, c))
+    = registerUtility W hashable st c p n i (Some f) ev.
   Proof.
     unfold g_registerUtility. cbv beta iota zeta. cbn [snd]. destruct (Nat.eqb n 0) eqn:E.
-    - apply Nat.eqb_eq in E. subst n. rewrite gn_none. exact (g_reg_body st c p 0 i (Some (f, c))).
-    - exact (g_reg_body st c p n i (Some (f, c))).
+    - apply Nat.eqb_eq in E. subst n. rewrite gn_none. exact (g_reg_body st c p 0 i (Some (f, c)) ev).
+    - exact (g_reg_body st c p n i (Some (f, c)) ev).
   Qed.
 
   Theorem g_registerUtility_both st f c c' p n i ev :
@@ -226,11 +228,11 @@ Section Adapters.
   Hypothesis gn_none : forall c, gn c = 0.
   Hypothesis gar_explicit : forall f req, gar f (Some req) = Some (map conv req).
 
-  Theorem g_registerAdapter_eq st f req p n i :
-    g_registerAdapter W gn gap gar st f (Some req) (Some p) n i true = registerAdapter W st f req p n i.
+  Theorem g_registerAdapter_eq st f req p n i ev :
+    g_registerAdapter W gn gap gar st f (Some req) (Some p) n i ev = registerAdapter W st f req p n i ev.
   Proof.
     unfold g_registerAdapter, registerAdapter, conv_req. cbv beta iota zeta. rewrite gar_explicit.
-    destruct (Nat.eqb n 0) eqn:E; [apply Nat.eqb_eq in E; subst n; rewrite gn_none|]; reflexivity.
+    destruct (Nat.eqb n 0) eqn:E; [apply Nat.eqb_eq in E; subst n; rewrite gn_none|]; destruct ev; reflexivity.
   Qed.
 
   Theorem g_unregisterAdapter_eq st f req p n :
@@ -241,18 +243,18 @@ Section Adapters.
     destruct f as [f'|]; cbn [fst snd]; [destruct (negb (v_eq f' of))|]; reflexivity.
   Qed.
 
-  Theorem g_registerSubscriptionAdapter_eq st f req p n i :
-    g_registerSubscriptionAdapter W gap gar st f (Some req) (Some p) n i true = registerSub W st f req p n i.
+  Theorem g_registerSubscriptionAdapter_eq st f req p n i ev :
+    g_registerSubscriptionAdapter W gap gar st f (Some req) (Some p) n i ev = registerSub W st f req p n i ev.
   Proof.
     unfold g_registerSubscriptionAdapter, registerSub, conv_req. cbv beta iota zeta.
-    destruct (negb (Nat.eqb n 0)); [reflexivity|]. rewrite gar_explicit. reflexivity.
+    destruct (negb (Nat.eqb n 0)); [reflexivity|]. rewrite gar_explicit. destruct ev; reflexivity.
   Qed.
 
-  Theorem g_registerHandler_eq st f req n i :
-    g_registerHandler W gar st f (Some req) n i true = registerHandler W st f req n i.
+  Theorem g_registerHandler_eq st f req n i ev :
+    g_registerHandler W gar st f (Some req) n i ev = registerHandler W st f req n i ev.
   Proof.
     unfold g_registerHandler, registerHandler, conv_req. cbv beta iota zeta.
-    destruct (negb (Nat.eqb n 0)); [reflexivity|]. rewrite gar_explicit. reflexivity.
+    destruct (negb (Nat.eqb n 0)); [reflexivity|]. rewrite gar_explicit. destruct ev; reflexivity.
   Qed.
 
   Theorem g_unregisterSubscriptionAdapter_eq st f req p n :
@@ -301,3 +303,44 @@ Proof.
 Qed.
 Theorem g_registeredHandlers_eq st : g_registeredHandlers st = registeredHandlers st.
 Proof. unfold g_registeredHandlers, registeredHandlers. apply map_ext. intros [[q f] i]. reflexivity. Qed.
+
+(* ------------------------------------------------------------------ rebuildUtilityRegistryFromLocalCache *)
+Lemma fold_left_ext_eq {A B} (f g : A -> B -> A) l : (forall a x, f a x = g a x) -> forall a, fold_left f l a = fold_left g l a.
+Proof. intros H. induction l as [|x l IH]; intros a; cbn; auto. now rewrite H, IH. Qed.
+
+Theorem g_rebuildUtilityRegistry_eq W rebuild st :
+  g_rebuildUtilityRegistry W rebuild st = rebuildUtilityRegistry W rebuild st.
+Proof.
+  unfold g_rebuildUtilityRegistry, rebuildUtilityRegistry, rebuild_loop.
+  match goal with |- context [fold_left ?f (c_ureg st) ?a] =>
+    match goal with |- context [fold_left ?g (c_ureg st) a] =>
+      tryif constr_eq f g then fail else
+      replace (fold_left f (c_ureg st) a) with (fold_left g (c_ureg st) a)
+    end
+  end.
+  - reflexivity.
+  - apply fold_left_ext_eq. intros [u [[[nr dr] ns] ds]] [[p n] [[v i] f]].
+    destruct (registered u [] p n) as [v'|]; [destruct (v_eq v' v)|]; destruct rebuild; cbn [negb];
+      match goal with |- context [subscribed ?x [] (Some p) v] => destruct (subscribed x [] (Some p) v) end;
+      reflexivity.
+Qed.
+
+(* ------------------------------------------------------------------ the query methods *)
+Section Queries.
+  Variable W : world.
+  Variable call : value -> list nat -> option nat.
+
+  Theorem g_queries_eq S r :
+    (forall p n, g_queryUtility W (u_regs S r) p n = sys_queryUtility W S r p n) /\
+    (forall p, g_getUtilitiesFor W (u_regs S r) p = sys_getUtilitiesFor W S r p) /\
+    (forall p, g_getAllUtilitiesRegisteredFor W (u_regs S r) p = sys_getAllUtilitiesRegisteredFor W S r p) /\
+    (forall o p n, g_queryAdapter W call (a_regs S r) o p n = sys_queryMultiAdapter W call S r [o] p n) /\
+    (forall os p n, g_queryMultiAdapter W call (a_regs S r) os p n = sys_queryMultiAdapter W call S r os p n) /\
+    (forall os p, g_getAdapters W call (a_regs S r) os p = sys_getAdapters W call S r os p) /\
+    (forall os p, g_subscribers W call (a_regs S r) os p = sys_subscribers W call S r os p) /\
+    (forall os, g_handle W call (a_regs S r) os = sys_handle W S r os).
+  Proof.
+    repeat split; intros; try reflexivity.
+    unfold g_getAdapters, sys_getAdapters. apply flat_map_ext. intros [n f]. reflexivity.
+  Qed.
+End Queries.
